@@ -40,7 +40,11 @@ class ErrB(Exception):
     pass
 
 
-ERR = [ErrA, ErrB]
+class ErrC(BaseException):
+    """A failure that is not an `Exception` (like KeyboardInterrupt, or the CancelledError of a future someone else cancelled)."""
+
+
+ERR = [ErrA, ErrB, ErrC]
 
 
 def canon_result(mode, res):
@@ -85,7 +89,7 @@ def run_case(case):
                 except asyncio.CancelledError:
                     pf_state[i] = 'cancelled'
                     raise
-                except Exception:
+                except BaseException:
                     pf_state[i] = 'err'
                     raise
                 finally:
